@@ -154,6 +154,8 @@ pub fn c02(out: &mut Out, ex: &mut Exec, seed: u64, thorough: bool, check_spans:
 pub fn c23(out: &mut Out, ex: &mut Exec, seed: u64, thorough: bool) {
     let mut rng = Rng::new(seed); let n = if thorough { 30_000 } else { 2_000 }; let mut seen = HashSet::new();
     NON_ASCII_LABELS.with(|c| c.set(true));
+    // string literals with multi-byte characters: a label after one sits at start + UTF-8 bytes
+    NON_ASCII_LITERALS.with(|c| c.set(true));
     // random case, Unicode-aware (the generated non-ASCII letters have single-character case mappings of equal UTF-8 length)
     let rc = |rng: &mut Rng, s: &str| -> String { s.chars().map(|c| if rng.bool() { c.to_uppercase().next().unwrap() } else { c.to_lowercase().next().unwrap() }).collect() };
     // for labels with letters whose upper-casing changes the byte length only the ASCII letters change case (the query keeps the
@@ -387,6 +389,15 @@ pub fn gen_linkset(rng: &mut Rng, k: usize, debug_mix: bool) -> LinkSet {
                 let b = 1 + rng.below(k as u64 - 1) as usize; files[b].push(GStmt { labels: vec![], mnem: ".orig".into(), ops: vec![Op::ImmU(end)], size: 0 }); files[b].push(GStmt { labels: vec!["SEAM".into()], mnem: ".fill".into(), ops: vec![Op::ImmU(2)], size: 1 }); files[b].push(GStmt { labels: vec![], mnem: ".end".into(), ops: vec![], size: 0 }); note.push("touching blocks with a shared label"); } }
         3 => { // the same block start in two files
             let la = layout(&files[0]); if let Some(&(st, _, _)) = la.blocks.first() { let b = 1 + rng.below(k as u64 - 1) as usize; files[b].push(GStmt { labels: vec![], mnem: ".orig".into(), ops: vec![Op::ImmU(st)], size: 0 }); files[b].push(GStmt { labels: vec![], mnem: ".blkw".into(), ops: vec![Op::ImmU(1)], size: 1 }); files[b].push(GStmt { labels: vec![], mnem: ".end".into(), ops: vec![], size: 0 }); note.push("same block start"); } }
+        4 => { // a file without a single word: its labels sit on the `.end` of an empty block, its externals are only declared
+            let j = rng.below(k as u64) as usize;
+            let at = 0x3000 + 0x1000 * j as u32 + 0x800;
+            let mut f = vec![GStmt { labels: vec![], mnem: ".orig".into(), ops: vec![Op::ImmU(at)], size: 0 }];
+            f.push(GStmt { labels: defs[j].clone(), mnem: ".end".into(), ops: vec![], size: 0 });
+            for jj in 0..k { if jj != j { for n in &defs[jj] { if rng.chance(1, 2) { f.push(GStmt { labels: vec![], mnem: ".external".into(), ops: vec![Op::Lbl(n.clone())], size: 0 }); } } } }
+            files[j] = f; note.push("file without words"); }
+        5 => { // the first file is the empty source (debug symbols with an empty text)
+            files[0] = vec![]; note.push("empty first file"); }
         _ => {}
     }
     LinkSet { files, note }
@@ -545,6 +556,28 @@ pub fn c19(out: &mut Out, ex: &mut Exec, seed: u64, thorough: bool) {
             if r.starts_with("panic") { out.fail(out.lines, format!("`{l}` on a deserialized object file panicked: {r}"), format!("{replay}\n{l}")); }
         }
     };
+    // one hand-made giant: a debug line table with 65536 consecutive addressed lines (one line block longer than a u16 can
+    // count), read from the text format, then written to both formats, linked and queried
+    {
+        let mut t = String::from("LC-3 OBJ FILE\n\n.TEXT\n\n.SYMBOL\n\n.LINKER_INFO\n\n.DEBUG\n====================\nLINE | ADDR | SOURCE\n");
+        for i in 0..65536u32 { t.push_str(&format!("{i} | {:04X} | \n", i)); }
+        t.push_str("65536 | ???? | \n====================\n");
+        let line = format!("tde p {}", hx(&t));
+        let r = run(out, ex, &line); out.evaluations += 1;
+        out.hist.hit("giant_line_block");
+        if r.starts_with("panic") { out.fail(out.lines, format!("deserialize panicked on the 65536-line table: {}", r.chars().take(80).collect::<String>()), "giant line table".into()); }
+        else if r.starts_with("ok ") {
+            for l in ["oq p line 1", "oq p line 65535", "tser p"] { let r = run(out, ex, l); out.evaluations += 1;
+                if r.starts_with("panic") { out.fail(out.lines, format!("`{l}` on the object with a 65536-line block panicked: {}", r.chars().take(80).collect::<String>()), format!("giant line table\n{l}")); } }
+            // the binary writer cannot express the block length (it is written modulo 2^16): no framing to canonicalise, so this
+            // call is made on the implementation only — it must not panic
+            if let Some(o) = ex.objs.get("p") {
+                use lc3_ensemble::asm::encoding::{BinaryFormat, ObjFileFormat};
+                out.evaluations += 1;
+                if crate::util::catch(|| BinaryFormat::serialize(o).len()).is_err() { out.fail(out.lines, "BinaryFormat::serialize panicked on the object with a 65536-line block".into(), "giant line table\nbser p".into()); }
+            }
+        }
+    }
     for i in 0..n {
         let (pre, base_bin, base_txt) = { let mut r2 = Rng::new(seed ^ (i / 8)); match make_object(out, ex, &mut r2, i / 8) { Some((p, _)) => { let b = ex.line("bser o"); let t = ex.line("tser o"); (p, b, t) } None => (String::new(), "-".into(), "-".into()) } };
         let _ = pre;
